@@ -16,14 +16,14 @@ RULE = ("tree pairs (C01's generators, biased to containers of different sizes s
         "has at least one compound edit with >= 2 sub-edits; distinct = distinct case")
 ASSUMPTIONS = ["cost(e) = e.bounds() once e.tighten_bounds() returns False (must be a single value)",
                "whether the cost is minimal is not judged"]
-MINIMUMS = {"quick": {"views_compared": 10000, "levels_summed": 30000},
+MINIMUMS = {"quick": {"views_compared": 8000, "levels_summed": 15000},
             "thorough": {"views_compared": 200000, "levels_summed": 600000}}
 
 
 def plan(tier, seed):
     q = tier == "quick"
     specs = []
-    n_json, per_json = (10, 90) if q else (16, 2500)
+    n_json, per_json = (10, 250) if q else (16, 2500)
     for k in range(n_json):
         specs.append({"stratum": "json-x9-options", "family": "json", "n": per_json, "k": k, "all_options": True, "clean": True})
     per_f = 300 if q else 6000
